@@ -118,9 +118,14 @@ class OPAdapter(RoutingAdapter):
         D = [[Fraction(float(v)) for v in row] for row in M.tolist()]
         assert all((v * GRID).denominator == 1 for row in D for v in row), "integral point set is not exact"
         prize = [rng.randint(1, 64) / 64.0 for _ in range(n)]
-        k = rng.randint(1, min(n, 4))
-        cs = rng.sample(range(1, n + 1), k)
-        L = self._closed(D, cs)
+        for _ in range(50):
+            k = rng.randint(1, min(n, 4))
+            cs = rng.sample(range(1, n + 1), k)
+            L = self._closed(D, cs)
+            if L > 0:
+                break
+        if L == 0 and kind in ("tolband", "floateq"):
+            kind = "tight"                              # all chosen customers sit on the depot: max_length = 0
         unit = Fraction(1, GRID)
         target = list(cs)
         if kind in ("tight", "dup"):
